@@ -464,7 +464,43 @@ def r9_wiring(rep, g, facts):
         for fld, fn in want.items():
             rep.check(R, f'partial_time|Time.{fld}', got.get(fld) == fn, f'{fld} <- {got.get(fld)}', f'`Time.{fld}` is filled from the result of `{got.get(fld)}`, expected `{fn}` (fields swapped)', loc)
     else:
-        rep.incomplete(R, 'partial_time|map', 'assembly closure not found', loc)
+        # written as statements (`let hour = time_hour.parse_next(input)?; let (minute, _, second, nanosecond) = cut_err((..)).parse_next(input)?; Ok(Time { .. })`):
+        # each local is bound to the parser that produced it, through tuple patterns position by position
+        pb = facts.body(P + 'datetime::partial_time')
+        binds = {}
+
+        def parser_name(n_):
+            n_ = peel(n_)
+            if n_.get('k') == 'call' and last_seg((peel(n_.get('f', {})).get('path') or '')) == 'opt' and n_.get('args'):
+                inner = parser_name(n_['args'][0])
+                return 'opt:' + inner if inner else None
+            if n_.get('k') == 'path' and n_.get('res') in ('Fn', 'AssocFn'):
+                return last_seg(n_.get('path'))
+            return None
+        for st_ in walk(pb['body']):
+            if st_.get('k') != 'let' or 'init' not in st_:
+                continue
+            pat = st_['pat']
+            if pat.get('k') == 'p_bind':
+                names_ = [parser_name(c_) for c_ in walk(st_['init']) if c_.get('k') == 'path' and c_.get('res') in ('Fn', 'AssocFn') and last_seg(c_.get('path') or '').startswith('time_')]
+                if len(names_) == 1:
+                    binds[pat['name']] = names_[0]
+            elif pat.get('k') == 'p_tuple':
+                tups = [c_ for c_ in walk(st_['init']) if c_.get('k') == 'tup' and len(c_.get('elems', [])) == len(pat['pats'])]
+                if tups:
+                    for sub, el in zip(pat['pats'], tups[0]['elems']):
+                        if sub.get('k') == 'p_bind':
+                            binds[sub['name']] = parser_name(el)
+        st = [n for n in walk(pb['body']) if n.get('k') == 'struct' and (n.get('adt') or '').endswith('datetime::Time')]
+        if st and binds:
+            got = {}
+            for f in st[0]['fields']:
+                vs = [x['path'] for x in walk(f['e']) if x.get('k') == 'path' and x.get('res') == 'Local']
+                got[f['name']] = binds.get(vs[0]) if vs else None
+            for fld, fn in want.items():
+                rep.check(R, f'partial_time|Time.{fld}', got.get(fld) == fn, f'{fld} <- {got.get(fld)}', f'`Time.{fld}` is filled from the result of `{got.get(fld)}`, expected `{fn}` (fields swapped)', loc)
+        else:
+            rep.incomplete(R, 'partial_time|map', 'assembly closure not found', loc)
     # full_date_: Date { year, month, day }
     b = facts.body(P + 'datetime::full_date_')
     from .rules_c01 import binding_of_parser
